@@ -262,7 +262,7 @@ PROPS["C15"] = {
     "technique": "bounded model checking (Kani/CBMC) of the generic writer kernels with the medium replaced by a "
                  "nondeterministic buffered writer: the fault schedule is a symbolic variable; MIR-level protocol of "
                  "finish/flush/into_inner/Drop with every container call an event that may fail (z3/cvc5)",
-    "claim": "For write_rows, write_pool, write_data and PropertySet::write, instantiated with a writer that has the "
+    "claim": "Engine M, all four writers (write_rows, write_pool, write_data, PropertySet::write; loops unrolled to <= 2 items; every operation on the caller's writer a fallible event; wrappers around the writer are executed as crate code): Ok is returned only if every operation on the writer succeeded, the last one is the writer's own flush() and nothing is written after it. Kani: For write_rows, write_pool, write_data and PropertySet::write, instantiated with a writer that has the "
              "contract of cfb::Stream (buffering, flush may fail, Drop flushes and discards the error) and whose every "
              "write/flush call may fail nondeterministically: whenever the kernel returns Ok, every accepted byte has "
              "reached the medium once the by-value writer is gone; no schedule panics. Propagation through "
